@@ -8,11 +8,11 @@ related() { case "$1" in
   C09) echo "C09 C02";; C10) echo "C10 C01";; C11) echo "C11 C01";; C12) echo "C12";; C20) echo "C20 C01";; *) echo "$1";; esac; }
 while [ ! -f /tmp/evalout/STOP ]; do
   did=0
-  for d in /tmp/mut/C*/mutant_[ab] /tmp/mut2/C*/mutant_[ab] /tmp/mut3/C*/mutant_[ab]; do
+  for d in /tmp/mut/C*/mutant_[ab] /tmp/mut2/C*/mutant_[ab] /tmp/mut3/C*/mutant_[ab] /tmp/mut4/C*/mutant_[ab]; do
     [ -f "$d/patch.diff" ] && [ -f "$d/README.md" ] && ls "$d"/zz_demo_*_test.go >/dev/null 2>&1 || continue
     pid=$(basename $(dirname $d))
     ab=$(basename $d | sed 's/mutant_//')
-    case "$d" in /tmp/mut2/*) ab=$(echo $ab | tr ab cd);; /tmp/mut3/*) ab=$(echo $ab | tr ab ef);; esac   # round 2: a->c, b->d; round 3: a->e, b->f
+    case "$d" in /tmp/mut2/*) ab=$(echo $ab | tr ab cd);; /tmp/mut3/*) ab=$(echo $ab | tr ab ef);; /tmp/mut4/*) ab=$(echo $ab | tr ab gh);; esac   # round 2: a->c, b->d; round 3: a->e, b->f
     name=${pid}_$ab
     [ -f /tmp/evalout/$name/result.json ] && continue
     set=$(echo "$(related $pid) $CHEAP" | tr ' ' '\n' | awk '!s[$0]++' | tr '\n' ' ')
